@@ -93,8 +93,8 @@ func (fs *ReaderFS) read(r io.Reader) {
 	if err != nil {
 		fs.unarchiveErr.Store(err)
 	}
+	fs.readerDone() // before releasing the waiters: a woken Open tells "finished" from "cancelled" by it
 	fs.callerCancel()
-	fs.readerDone()
 
 	if closer, ok := r.(io.Closer); ok {
 		_ = closer.Close()
@@ -290,6 +290,15 @@ func (fs *ReaderFS) Open(name string) (hackpadfs.File, error) {
 		return nil, &hackpadfs.PathError{Op: "open", Path: name, Err: hackpadfs.ErrInvalid}
 	}
 	fs.ps.Wait(name)
+	if !fs.ps.Visited(name) {
+		// not announced as completely written: a directory, a missing name -- or unpacking was cancelled.
+		// Only a finished reader can vouch for what the destination holds.
+		select {
+		case <-fs.readerCtx.Done():
+		default:
+			return nil, &hackpadfs.PathError{Op: "open", Path: name, Err: fs.callerCtx.Err()}
+		}
+	}
 	if unarchiveErr := fs.UnarchiveErr(); unarchiveErr != nil {
 		return nil, &hackpadfs.PathError{Op: "open", Path: name, Err: unarchiveErr}
 	}
